@@ -5,6 +5,9 @@ import NB.Lemmas.Canon
 import NB.Lemmas.AddSub
 import NB.Model.Core
 import NB.Props.C01
+import NB.Props.C02
+import NB.Props.C03
+import NB.Props.C07
 namespace NB.Core
 
 theorem B_eq_B32_sq : B = B32 * B32 := by decide
@@ -226,5 +229,269 @@ theorem bigint_subAssign_spec (P : Params) (a b : BigInt) (ha : a.Canon) (hb : b
   · exact ok_from_plus hsumC (by rw [ofNat_val]; omega)
   · exact congrArg _ hA
   · rw [hdp]
+
+/-! ### soundness of the further in-place operations of the history machine
+    (multiplication: NB.Props.C02, division: NB.Props.C03, shifts / bit operations / set_bit: NB.Props.C07) -/
+
+theorem validMulB_iff (P : Params) : validMulB P = true ↔ P.ValidMul := by
+  unfold validMulB Params.ValidMul
+  rw [decide_eq_true_eq]
+
+theorem natLdiff_eq : natLdiff = Nat.ldiff := rfl
+theorem intLand_eq (x y : Int) : intLand x y = Int.land x y := by cases x <;> cases y <;> rfl
+theorem intLor_eq (x y : Int) : intLor x y = Int.lor x y := by cases x <;> cases y <;> rfl
+theorem intXor_eq (x y : Int) : intXor x y = Int.xor x y := by cases x <;> cases y <;> rfl
+theorem intLdiff_eq (x y : Int) : intLdiff x y = Int.ldiff x y := by cases x <;> cases y <;> rfl
+
+theorem immU64_cases {imm : List Nat} (h : immU64 imm = true) : ∃ k, imm = [k] ∧ k < B := by
+  rcases imm with _ | ⟨k, _ | ⟨_, _⟩⟩ <;> simp [immU64] at h
+  exact ⟨k, rfl, h⟩
+
+theorem immU32_cases {imm : List Nat} (h : immU32 imm = true) : ∃ k, imm = [k] ∧ k < B32 := by
+  rcases imm with _ | ⟨k, _ | ⟨_, _⟩⟩ <;> simp [immU32] at h
+  exact ⟨k, rfl, h⟩
+
+theorem immU128_cases {imm : List Nat} (h : immU128 imm = true) : ∃ lo hi, imm = [lo, hi] ∧ lo < B ∧ hi < B := by
+  rcases imm with _ | ⟨lo, _ | ⟨hi, _ | ⟨_, _⟩⟩⟩ <;> simp [immU128] at h
+  exact ⟨lo, hi, rfl, h.1, h.2⟩
+
+theorem immBit_cases {imm : List Nat} (h : immBit imm = true) : ∃ k v, imm = [k, v] ∧ k < B ∧ v < 2 := by
+  rcases imm with _ | ⟨k, _ | ⟨v, _ | ⟨_, _⟩⟩⟩ <;> simp [immBit] at h
+  exact ⟨k, v, rfl, h.1, h.2⟩
+
+theorem immI128_cases {imm : List Nat} (h : immI128 imm = true) :
+    ∃ neg lo hi, imm = [neg, lo, hi] ∧ lo < B ∧ hi < B ∧ (neg = 1 → 1 ≤ lo + B * hi) := by
+  rcases imm with _ | ⟨n, _ | ⟨lo, _ | ⟨hi, _ | ⟨_, _⟩⟩⟩⟩ <;> simp [immI128] at h
+  refine ⟨n, lo, hi, rfl, h.1.1, h.1.2, ?_⟩
+  intro hn
+  rcases h.2 with h2 | h2
+  · omega
+  · exact h2.1.2
+
+/-- `a *= s as u128` for every `s < 2^128`: also when `a` is zero and `s` needs two digits -/
+theorem mulAssignU128_spec (P : Params) (hP : P.ValidMul) (a : List Nat) (ha : Canon a) (lo hi : Nat)
+    (hlo : lo < B) (hhi : hi < B) :
+    BigUint.mulAssignU128 P a (lo + B * hi) = .ok (ofNat (val a * (lo + B * hi))) := by
+  unfold BigUint.mulAssignU128
+  by_cases hs : lo + B * hi < B
+  · rw [if_pos hs, scalar_mul_val a _ ha hs]
+  · rw [if_neg hs]
+    have h1 : (lo + B * hi) % B = lo := by rw [Nat.add_mul_mod_self_left]; exact Nat.mod_eq_of_lt hlo
+    have h2 : (lo + B * hi) / B = hi := by
+      rw [Nat.add_mul_div_left _ _ B_pos, Nat.div_eq_of_lt hlo, Nat.zero_add]
+    rw [h1, h2, mul3_spec P hP a [lo, hi] ha.1 (DigitsOk.cons hlo (DigitsOk.cons hhi DigitsOk.nil))]
+    simp [val]
+
+/-- a sign and a natural magnitude that agree on zero form the canonical BigInt of `sign · n` -/
+theorem signed_ofNat (s : Sign) (n : Nat) (h : s = .nosign ↔ n = 0) :
+    (⟨s, ofNat n⟩ : BigInt) = BigInt.ofInt (Sign.toInt s * (n : Int)) := by
+  cases s with
+  | nosign => have := h.mp rfl; subst this; simp [Sign.toInt, ofInt_zero, ofNat_zero]
+  | plus =>
+    have hn : n ≠ 0 := fun e => by simpa using h.mpr e
+    simp only [Sign.toInt, Int.one_mul, ofInt_natCast, hn, if_false]
+  | minus =>
+    have hn : n ≠ 0 := fun e => by simpa using h.mpr e
+    have : (-1 : Int) * (n : Int) = -(n : Int) := by omega
+    simp only [Sign.toInt, this, ofInt_negNatCast, hn, if_false]
+
+theorem canon_sign_mag_zero {x : BigInt} (hx : x.Canon) : x.sign = .nosign ↔ val x.mag = 0 := by
+  rw [hx.2]; exact canon_eq_nil_iff hx.1
+
+theorem bigint_mulAssignU128_spec (P : Params) (hP : P.ValidMul) (x : BigInt) (hx : x.Canon) (lo hi : Nat)
+    (hlo : lo < B) (hhi : hi < B) :
+    BigInt.mulAssignU128 P x (lo + B * hi) = .ok (BigInt.ofInt (x.val * ((lo + B * hi : Nat) : Int))) := by
+  unfold BigInt.mulAssignU128
+  rw [mulAssignU128_spec P hP x.mag hx.1 lo hi hlo hhi]
+  show Except.ok _ = Except.ok _
+  congr 1
+  dsimp only
+  generalize lo + B * hi = s
+  have hz := canon_sign_mag_zero hx
+  rw [bigint_val_eq x]
+  by_cases hn : val x.mag * s = 0
+  · rw [hn, ofNat_zero]
+    have : Sign.toInt x.sign * (val x.mag : Int) * (s : Int) = 0 := by
+      rw [Int.mul_assoc]; norm_cast; rw [hn]; simp
+    rw [this, ofInt_zero]; simp [BigUint.isZero]
+  · have hne : ¬ (BigUint.isZero (ofNat (val x.mag * s)) = true) := by
+      rw [isZero_iff, ofNat_eq_nil_iff]; exact hn
+    rw [if_neg hne]
+    have hs : x.sign = .nosign ↔ val x.mag * s = 0 := by
+      constructor
+      · intro h; rw [hz.mp h]; simp
+      · intro h; exact absurd h hn
+    rw [signed_ofNat x.sign _ hs]; congr 1; push_cast; ring
+
+theorem bigint_mulAssignI128_spec (P : Params) (hP : P.ValidMul) (x : BigInt) (hx : x.Canon) (neg : Bool) (lo hi : Nat)
+    (hlo : lo < B) (hhi : hi < B) (hpos : neg = true → 1 ≤ lo + B * hi) :
+    BigInt.mulAssignI128 P x neg (lo + B * hi) =
+      .ok (BigInt.ofInt (x.val * (if neg then -((lo + B * hi : Nat) : Int) else ((lo + B * hi : Nat) : Int)))) := by
+  unfold BigInt.mulAssignI128
+  cases neg with
+  | false => simp only [Bool.false_eq_true, if_false]; exact bigint_mulAssignU128_spec P hP x hx lo hi hlo hhi
+  | true =>
+    simp only [if_true]
+    rw [mulAssignU128_spec P hP x.mag hx.1 lo hi hlo hhi]
+    show Except.ok _ = Except.ok _
+    congr 1
+    dsimp only
+    have hu := hpos rfl
+    generalize lo + B * hi = s at *
+    have hz := canon_sign_mag_zero hx
+    have hs : x.sign.neg = .nosign ↔ val x.mag * s = 0 := by
+      constructor
+      · intro h
+        have : x.sign = .nosign := by cases hsx : x.sign <;> simp [hsx, Sign.neg] at h ⊢
+        rw [hz.mp this]; simp
+      · intro h
+        have : val x.mag = 0 := by
+          rcases Nat.mul_eq_zero.mp h with h | h
+          · exact h
+          · omega
+        rw [hz.mpr this]; rfl
+    rw [signed_ofNat x.sign.neg _ hs, Sign.toInt_neg, bigint_val_eq x]; congr 1; push_cast; ring
+
+theorem uMulOp_sound : uMulOp.Sound := by
+  intro P hv a b imm ha hb _
+  simp [uMulOp, mulAssign_spec P ((validMulB_iff P).mp hv) a b ha hb, Except.toOption]
+
+theorem uMul32Op_sound : uMul32Op.Sound := by
+  intro P _ a b imm ha _ hi
+  obtain ⟨k, rfl, hk⟩ := immU32_cases hi
+  have hk' : k < B := by unfold B32 u32Bits at hk; unfold B; omega
+  simp [uMul32Op, imm0, scalar_mul_val a k ha hk', Except.toOption]
+
+theorem uMul64Op_sound : uMul64Op.Sound := by
+  intro P _ a b imm ha _ hi
+  obtain ⟨k, rfl, hk⟩ := immU64_cases hi
+  simp [uMul64Op, imm0, scalar_mul_val a k ha hk, Except.toOption]
+
+theorem uMul128Op_sound : uMul128Op.Sound := by
+  intro P hv a b imm ha _ hi
+  obtain ⟨lo, hi', rfl, h1, h2⟩ := immU128_cases hi
+  simp [uMul128Op, imm0, imm1, mulAssignU128_spec P ((validMulB_iff P).mp hv) a ha lo hi' h1 h2, Except.toOption]
+
+theorem uDivOp_sound : uDivOp.Sound := by
+  intro P _ a b imm ha hb _
+  simp only [uDivOp, divRef_spec P a b ha hb, canon_eq_nil_iff hb]
+  split <;> simp [Except.toOption]
+
+theorem uRemOp_sound : uRemOp.Sound := by
+  intro P _ a b imm ha hb _
+  simp only [uRemOp, remRef_spec P a b ha hb, canon_eq_nil_iff hb]
+  split <;> simp [Except.toOption]
+
+theorem uShlOp_sound : uShlOp.Sound := by
+  intro P _ a b imm ha _ hi
+  obtain ⟨k, rfl, hk⟩ := immU64_cases hi
+  have hcap : a ≠ [] → ((k : Nat) : Int).toNat / C07.BITS < C07.USIZE_RANGE := by
+    intro _; simp only [Int.toNat_natCast]
+    exact Nat.lt_of_le_of_lt (Nat.div_le_self _ _) hk
+  simp [uShlOp, imm0, C07.shl_spec a (k : Nat) ha (by omega) hcap, Except.toOption]
+
+theorem biguintShr_small (a : List Nat) (k : Nat) (ha : Canon a) (hk : k < B) :
+    C07.biguintShr a (k : Nat) = .ok (ofNat (val a / 2 ^ k)) := by
+  unfold C07.biguintShr
+  have hk' : ¬ ((k : Nat) : Int) < 0 := by omega
+  simp only [hk', if_false, Int.toNat_natCast]
+  by_cases h0 : a = []
+  · subst h0; simp [val, ofNat_zero]
+  · simp only [h0, if_false]
+    have hq : k / C07.BITS < C07.USIZE_RANGE := Nat.lt_of_le_of_lt (Nat.div_le_self _ _) hk
+    simp only [hq, if_true]
+    obtain ⟨h1, h2⟩ := C07.shr2_spec a (k / C07.BITS) (k % C07.BITS) ha.1 (Nat.mod_lt _ (by decide))
+    rw [Nat.div_add_mod] at h1
+    rw [canon_eq_ofNat h2, h1]
+
+theorem uShrOp_sound : uShrOp.Sound := by
+  intro P _ a b imm ha _ hi
+  obtain ⟨k, rfl, hk⟩ := immU64_cases hi
+  simp [uShrOp, imm0, biguintShr_small a k ha hk, Except.toOption]
+
+theorem uAndOp_sound : uAndOp.Sound := by
+  intro P _ a b imm ha hb _
+  simp [uAndOp, C07.andAssign_spec a b ha hb, Except.toOption]
+
+theorem uOrOp_sound : uOrOp.Sound := by
+  intro P _ a b imm ha hb _
+  simp [uOrOp, C07.orAssign_spec a b ha hb, Except.toOption]
+
+theorem uXorOp_sound : uXorOp.Sound := by
+  intro P _ a b imm ha hb _
+  simp [uXorOp, C07.xorAssign_spec a b ha hb, Except.toOption]
+
+theorem uSetBitOp_sound : uSetBitOp.Sound := by
+  intro P _ a b imm ha _ hi
+  obtain ⟨k, v, rfl, _, hv⟩ := immBit_cases hi
+  have : v = 0 ∨ v = 1 := by omega
+  rcases this with rfl | rfl
+  · simp [uSetBitOp, imm0, imm1, C07.set_bit_false_spec_u a ha k, Except.toOption, natLdiff_eq]
+  · simp [uSetBitOp, imm0, imm1, C07.set_bit_true_spec_u a ha k, Except.toOption]
+
+theorem iMulOp_sound : iMulOp.Sound := by
+  intro P hv a b imm ha hb _
+  simp [iMulOp, bigint_mulAssign_spec P ((validMulB_iff P).mp hv) a b ha hb, Except.toOption]
+
+theorem iMul128Op_sound : iMul128Op.Sound := by
+  intro P hv a b imm ha _ hi
+  obtain ⟨lo, hi', rfl, h1, h2⟩ := immU128_cases hi
+  simp [iMul128Op, imm0, imm1, bigint_mulAssignU128_spec P ((validMulB_iff P).mp hv) a ha lo hi' h1 h2, Except.toOption]
+
+theorem iMulI128Op_sound : iMulI128Op.Sound := by
+  intro P hv a b imm ha _ hi
+  obtain ⟨n, lo, hi', rfl, h1, h2, h3⟩ := immI128_cases hi
+  have hp : (n == 1) = true → 1 ≤ lo + B * hi' := fun h => h3 (by simpa using h)
+  simp only [iMulI128Op, imm0, imm1, imm2, List.getD_cons_zero, List.getD_cons_succ,
+    bigint_mulAssignI128_spec P ((validMulB_iff P).mp hv) a ha (n == 1) lo hi' h1 h2 hp, Except.toOption,
+    Option.map_some]
+
+theorem iDivOp_sound : iDivOp.Sound := by
+  intro P _ a b imm ha hb _
+  simp only [iDivOp, bigint_div_spec P a b ha hb]
+  split <;> simp [Except.toOption]
+
+theorem iRemOp_sound : iRemOp.Sound := by
+  intro P _ a b imm ha hb _
+  simp only [iRemOp, bigint_rem_spec P a b ha hb]
+  split <;> simp [Except.toOption]
+
+theorem iShlOp_sound : iShlOp.Sound := by
+  intro P _ a b imm ha _ hi
+  obtain ⟨k, rfl, hk⟩ := immU64_cases hi
+  have hcap : a.mag ≠ [] → ((k : Nat) : Int).toNat / C07.BITS < C07.USIZE_RANGE := by
+    intro _; simp only [Int.toNat_natCast]
+    exact Nat.lt_of_le_of_lt (Nat.div_le_self _ _) hk
+  simp [iShlOp, imm0, C07.bigint_shlAssign_spec a (k : Nat) ha (by omega) hcap, Except.toOption]
+
+theorem iShrOp_sound : iShrOp.Sound := by
+  intro P _ a b imm ha _ hi
+  obtain ⟨k, rfl, hk⟩ := immU64_cases hi
+  have hm : digitLen a.val.natAbs = a.mag.length := by unfold digitLen; rw [← bigint_canon_mag ha]
+  simp only [iShrOp, imm0, List.getD_cons_zero, hm]
+  by_cases hp : physOk a.mag.length = true
+  · have hlen : C07.BITS * a.mag.length < C07.U64_RANGE := by simpa [physOk] using hp
+    simp [hp, C07.bigint_shrAssign_spec P a (k : Nat) ha (by omega) hlen, Except.toOption]
+  · simp [hp, Except.toOption]
+
+theorem iAndOp_sound : iAndOp.Sound := by
+  intro P _ a b imm ha hb _
+  simp [iAndOp, C07.bigint_andAssign_spec a b ha hb, Except.toOption, intLand_eq]
+
+theorem iOrOp_sound : iOrOp.Sound := by
+  intro P _ a b imm ha hb _
+  simp [iOrOp, C07.bigint_orAssign_spec a b ha hb, Except.toOption, intLor_eq]
+
+theorem iXorOp_sound : iXorOp.Sound := by
+  intro P _ a b imm ha hb _
+  simp [iXorOp, C07.bigint_xorAssign_spec a b ha hb, Except.toOption, intXor_eq]
+
+theorem iSetBitOp_sound : iSetBitOp.Sound := by
+  intro P _ a b imm ha _ hi
+  obtain ⟨k, v, rfl, _, hv⟩ := immBit_cases hi
+  have : v = 0 ∨ v = 1 := by omega
+  rcases this with rfl | rfl
+  · simp [iSetBitOp, imm0, imm1, C07.bigint_set_bit_spec a k false ha, Except.toOption, intLdiff_eq]
+  · simp [iSetBitOp, imm0, imm1, C07.bigint_set_bit_spec a k true ha, Except.toOption, intLor_eq]
 
 end NB.Core
